@@ -22,6 +22,7 @@ const VALID: &[&str] = &[
     "2024/01/08 ! pending\n    Assets:Bank    (2 * 3.5 CHF)\n    Income:Misc\n",
     "apply tag trip\n",
     "end apply tag\n",
+    "include empty.ledger\n",
     "2024/01/09 Long one\n    ; :tag1:tag2:\n    Expenses:Food    1 USD\n    ; note on posting\n    Expenses:Rent    2 USD\n    Assets:Cash    -3 USD\n",
 ];
 
@@ -168,6 +169,11 @@ impl Check for C14 {
             .enumerate()
             .map(|(i, b)| (format!("/mem/c14/{}", names[i]), if crlf[i] { b.text.replace('\n', "\r\n") } else { b.text.clone() }))
             .collect();
+        let mut files = files;
+        // every directory holds a zero-byte `empty.ledger` that valid content may include
+        for d in ["top", "top/inc", "top/inc/deep"] {
+            files.push((format!("/mem/c14/{}/empty.ledger", d), String::new()));
+        }
         let root = files[0].0.clone();
         let want_file = files[depth].0.clone();
         let stop = first + bad.stop;
@@ -198,8 +204,8 @@ impl Check for C14 {
             let dir = ctx.scratch.join(format!("c14-{}", idx));
             let _ = std::fs::remove_dir_all(&dir);
             let mut ok = true;
-            for (i, (_, c)) in files.iter().enumerate() {
-                let p = dir.join(names[i]);
+            for (path, c) in files.iter() {
+                let p = dir.join(path.trim_start_matches("/mem/c14/"));
                 ok &= std::fs::create_dir_all(p.parent().unwrap()).is_ok() && std::fs::write(&p, c).is_ok();
             }
             if ok {
@@ -238,7 +244,7 @@ impl Check for C14 {
     fn rule(&self) -> String {
         "Each case: a tree of 1-3 files (root, file included by the root, file included by that one; the deepest name has a space and a non-ASCII letter). Every \
          file starts with 0-2 blank lines and 0-4 valid entries from a pool (transactions, multi-line and multi-byte comments, account / commodity declarations, \
-         metadata, apply tag), separated by 1-3 blank lines, each file independently LF or CRLF; the deepest file then holds exactly one invalid entry followed by \
+         metadata, apply tag, an include of a zero-byte file), separated by 1-3 blank lines, each file independently LF or CRLF; the deepest file then holds exactly one invalid entry followed by \
          0-2 valid ones; the including files hold the include line followed by more valid content. Invalid entry: semantic (unbalanced in 1 or 3 commodities, false \
          assertion, two unconstrained postings, zero rate, cost in the amount's commodity, alias conflicting with a used account) or syntactic (impossible date, \
          `1,23`, unclosed `(`, unclosed `{`, dangling `@`, garbage line, orphan posting / orphan multi-byte note after a blank line), optionally with a note line \
